@@ -33,8 +33,22 @@ Record pstate := {
   dv : list Z;         (* components in use: simplifier, scaler, starter, pricer, ratio tester, LU update type,
                           max updates, polishing, sense of the stored LP *)
   tv : list dbl;       (* tolerances in use, Markowitz threshold, offset of the stored LP *)
-  lpd : list Z         (* the rest of the stored LP (opaque) *)
+  lpd : list Z;        (* the rest of the stored floating-point LP (opaque) *)
+  rat : Z              (* which rational LP the object holds: 0 none (SYNCMODE_ONLYREAL), 1 the rational data as entered,
+                          2 the exact image of the floating-point LP (made by _syncLPRational), 3 an empty one
+                          (made by _ensureRationalLP), -1 not predicted *)
 }.
+
+(* effect of setIntParam(SYNCMODE, v) on the rational LP when the current mode is cur (soplex.hpp, case SYNCMODE):
+   ONLYREAL frees it, AUTO synchronises it from the floating-point LP only when coming from ONLYREAL, MANUAL creates
+   an empty one if there is none.  With v = cur nothing happens. *)
+Definition rat_effect (name : string) (cur v r : Z) : Z :=
+  if negb (String.eqb name "syncmode") then r
+  else if v =? cur then r
+  else if v =? 0 then 0
+  else if v =? 1 then (if cur =? 0 then 2 else r)
+  else if v =? 2 then (if r =? 0 then 3 else r)
+  else r.
 
 Fixpoint upd {A} (n : nat) (x : A) (l : list A) : list A :=
   match l, n with
@@ -64,7 +78,7 @@ Section Table.
 
   Definition init (lp : list Z) : pstate :=
     let b := map b_def btab in let i := map i_def itab in let r := map r_def rtab in
-    {| bv := b; iv := i; rv := r; seed := 0; dv := derive_i i; tv := derive_r r; lpd := lp |}.
+    {| bv := b; iv := i; rv := r; seed := 0; dv := derive_i i; tv := derive_r r; lpd := lp; rat := 0 |}.
 
   (* ---- validity of a value for a parameter ---- *)
   Definition small (r : irow) : bool := i_up r - i_lo r <=? 16.
@@ -80,7 +94,7 @@ Section Table.
     | Some r, Some cur =>
       if negb ini && Bool.eqb v cur then (s, true)
       else if bool_valid r cur v then
-        ({| bv := upd i v (bv s); iv := iv s; rv := rv s; seed := seed s; dv := dv s; tv := tv s; lpd := lpd s |}, true)
+        ({| bv := upd i v (bv s); iv := iv s; rv := rv s; seed := seed s; dv := dv s; tv := tv s; lpd := lpd s; rat := rat s |}, true)
       else (s, false)
     | _, _ => (s, false)
     end.
@@ -96,7 +110,8 @@ Section Table.
       if negb ini && (v =? cur) then (s, true)
       else if int_valid r v then
         ({| bv := bv s; iv := upd i v (iv s); rv := rv s; seed := seed s;
-            dv := apply_ieff (i_name r) v (dv s); tv := tv s; lpd := lpd s |}, true)
+            dv := apply_ieff (i_name r) v (dv s); tv := tv s; lpd := lpd s;
+            rat := rat_effect (i_name r) cur v (rat s) |}, true)
       else (s, false)
     | _, _ => (s, false)
     end.
@@ -107,13 +122,13 @@ Section Table.
       if negb ini && deq v cur then (s, true)
       else if real_valid r cur v then
         ({| bv := bv s; iv := iv s; rv := upd i v (rv s); seed := seed s;
-            dv := dv s; tv := apply_reff (r_name r) v (tv s); lpd := lpd s |}, true)
+            dv := dv s; tv := apply_reff (r_name r) v (tv s); lpd := lpd s; rat := rat s |}, true)
       else (s, false)
     | _, _ => (s, false)
     end.
 
   Definition set_seed (n : Z) (s : pstate) : pstate :=
-    {| bv := bv s; iv := iv s; rv := rv s; seed := n; dv := dv s; tv := tv s; lpd := lpd s |}.
+    {| bv := bv s; iv := iv s; rv := rv s; seed := n; dv := dv s; tv := tv s; lpd := lpd s; rat := rat s |}.
 
   (* fold a setter over 0..n-1 with the given values, ignoring individual results (resetSettings) or
      and-ing them (setSettings) *)
@@ -130,7 +145,8 @@ Section Table.
 
   (* setSettings(newSettings, init = true): the value arrays are overwritten first, then every setter runs *)
   Definition set_settings (nb : list bool) (ni : list Z) (nr : list dbl) (s : pstate) : pstate * bool :=
-    let s0 := {| bv := nb; iv := ni; rv := nr; seed := seed s; dv := dv s; tv := tv s; lpd := lpd s |} in
+    let s0 := {| bv := nb; iv := ni; rv := nr; seed := seed s; dv := dv s; tv := tv s; lpd := lpd s;
+                 rat := if get_int "syncmode" ni =? get_int "syncmode" (iv s) then rat s else -1 |} in
     let (s1, o1) := fold_set (set_bool true) 0 nb s0 in
     let (s2, o2) := fold_set (set_int true) 0 ni s1 in
     let (s3, o3) := fold_set (set_real true) 0 nr s2 in (s3, o1 && o2 && o3).
@@ -194,6 +210,7 @@ Section Table.
   | OParse (line : list Z) (sd : option dbl)        (* sd: what std::stod returns on the value token *)
   | OLoad (lines : list (list Z * option dbl))
   | OReset
+  | OLoadLP                                         (* the user loads an LP (and, if a rational LP exists, enters rational data) *)
   | OCopy (ops : list (nat * bool) * list (nat * Z) * list (nat * dbl)).   (* setSettings from a fresh object after these sets *)
 
   Definition step (s : pstate) (o : op) : pstate * bool :=
@@ -205,6 +222,8 @@ Section Table.
     | OParse l sd => parse_line (fun _ => sd) l s
     | OLoad ls => (fold_left (fun st l => fst (parse_line (fun _ => snd l) (fst l) st)) ls s, true)
     | OReset => (reset s, true)
+    | OLoadLP => ({| bv := bv s; iv := iv s; rv := rv s; seed := seed s; dv := dv s; tv := tv s; lpd := lpd s;
+                     rat := if rat s =? 0 then 0 else 1 |}, true)
     | OCopy (ob, oi, orl) =>
       let o0 := init [] in
       let o1 := fold_left (fun st p => fst (set_bool true (fst p) (snd p) st)) ob o0 in
